@@ -7,8 +7,16 @@ each path of `parse` under a scenario, using the idioms the repository actually 
 """
 import re
 
-from .interp import Interp, Scenario, Sym, Const, Bytes, render, render_items, merge_consts, render_item
+from .interp import Interp, Scenario, Sym, Const, Bytes, render, render_items, merge_consts, render_item, lin_norm, lin_add
 from .loader import AnalysisError
+
+
+class Problem(tuple):
+    """(kind, message, line) - a plain 3-tuple for existing callers - that also carries the Read it is about (`.read`)."""
+    def __new__(cls, kind, message, line, read=None):
+        self = tuple.__new__(cls, (kind, message, line))
+        self.read = read
+        return self
 
 
 class Read(object):
@@ -69,20 +77,22 @@ def mentions(text, buf):
 DELEGATES = ('MPI', 'ECPoint', 'SignatureSP', 'UserAttribute', 'Packet')
 
 
-def reader_sequence(state, buf='packet', cls=None):
+def reader_sequence(state, buf='packet', cls=None, recv='self'):
     """Ordered list of Read elements and consumption records from one interpreter path.
 
     Returns (reads, problems) where problems are (kind, message, line) for consume-what-you-read / alias-then-consume.
-    `cls` (ClassInfo) lets `self.x = packet` be recognised as a call of a consuming sdproperty setter rather than an alias."""
+    `cls` (ClassInfo) lets `self.x = packet` be recognised as a call of a consuming sdproperty setter rather than an alias
+    (`recv` = name of the receiver parameter of the method)."""
     reads = []
     problems = []
     pending = []        # fixed reads not yet consumed: (Read, (lo, hi))
     aliased = None      # (target, line) once the buffer was stored without copy
+    last_ctor = None    # Read of a consuming constructor call Klass(buf) whose result has not been bound yet
 
     def consuming_setter(target):
-        if cls is None or not target.startswith('self.') or '.' in target[5:]:
+        if cls is None or not target.startswith(recv + '.') or '.' in target[len(recv) + 1:]:
             return None
-        p = cls.find_prop(target[5:])
+        p = cls.find_prop(target[len(recv) + 1:])
         if p is None:
             return None
         for tn in ('bytearray', 'bytes'):
@@ -90,11 +100,25 @@ def reader_sequence(state, buf='packet', cls=None):
                 return p.setters[tn]
         return None
 
-    for ev in state.events:
+    for ev in _dedupe_pops(state.events, buf):
         kind = ev[0]
+        ctor, last_ctor = last_ctor, None
         if kind in ('store', 'assign'):
             target, val, line = ev[1], ev[2], ev[3]
+            if ctor is not None and ctor.via == 'pop' and ctor.text in val:
+                # x = buf.pop(0): the octet read and consumed in one call gets its name
+                ctor.kind, ctor.target, ctor.text = 'fixed', target, val
+                continue
+            if ctor is not None and (val == ctor.text or (kind == 'assign' and val == target)):
+                # x = Klass(buf) / self.f = Klass(buf): the object the constructor built from the buffer gets its name
+                ctor.target = target
+                continue
             if not mentions(val, buf):
+                # a local that holds an object built from the buffer earlier is stored into a field
+                hold = [r for r in reads if r.kind == 'delegate' and r.target is not None and r.target == val and not r.target.startswith(recv + '.')]
+                if hold and kind == 'store':
+                    hold[-1].locals.add(hold[-1].target)
+                    hold[-1].target = target
                 continue
             if val == buf:
                 if kind == 'store':
@@ -110,9 +134,10 @@ def reader_sequence(state, buf='packet', cls=None):
             if rhs_names and buf not in rhs_names:
                 src = [r for r in reads if r.target in rhs_names or (r.locals & set(rhs_names))]
                 if src:
-                    r = src[-1]
+                    exact = [r for r in src if r.target == val or val in r.locals]
+                    r = (exact or src)[-1]
                     if kind == 'store':
-                        if r.target is None or not r.target.startswith('self.'):
+                        if r.target is None or not r.target.startswith(recv + '.'):
                             r.locals.add(r.target)
                             r.target = target
                         else:
@@ -124,6 +149,9 @@ def reader_sequence(state, buf='packet', cls=None):
             m = re.search(r'\b([A-Za-z_][A-Za-z0-9_.]*)\(%s\)' % re.escape(buf), val)
             if m and m.group(1) in ('memoryview', 'len', 'bytes', 'bytearray'):
                 continue      # a view / copy / measurement of the buffer consumes nothing
+            if m and ctor is not None and val == ctor.text:
+                ctor.target = target
+                continue
             if m and slice_of(val, buf) is None:
                 reads.append(Read('delegate', target, None, val, line, via=m.group(1)))
                 if aliased:
@@ -155,15 +183,30 @@ def reader_sequence(state, buf='packet', cls=None):
             if sl[0] not in ('', '0'):
                 reads.append(Read('splice', None, '%s:%s' % sl, text, line))
                 continue
+            order = _tiling(pending, sl[1])
+            if order and (len(pending) > 1 or order[0][1] != '0'):
+                # reads at increasing offsets consumed by one del: the field order is the order of the offsets; consumed octets no read
+                # covers are skipped (in front: a skip of their own; behind a read: that read is a skip-read)
+                idx = sorted(reads.index(r) for r, _ in pending)
+                for i, (r, lo, end) in zip(idx, order):
+                    rs = [x[1] for x in pending if x[0] is r][0]
+                    r.width = lin_add(end, lo, -1)
+                    if lin_norm(rs[1]) != lin_norm(end) and r.kind == 'fixed':
+                        r.kind = 'fixed-skip'
+                    reads[i] = r
+                if order[0][1] != '0':
+                    reads.insert(idx[0], Read('skip', None, order[0][1], text, line))
+                pending = []
+                continue
             for r, rs in pending:
                 if rs[0] not in ('', '0'):
-                    problems.append(('read-offset', 'read %s does not start at the front of the buffer' % r.text, r.line))
+                    problems.append(Problem('read-offset', 'read %s does not start at the front of the buffer' % r.text, r.line, r))
                 elif rs[1] != sl[1]:
                     if _int(rs[1]) is not None and _int(sl[1]) is not None and _int(rs[1]) <= _int(sl[1]):
                         r.width = sl[1]
                         r.kind = 'fixed-skip' if r.kind == 'fixed' else r.kind
                     else:
-                        problems.append(('consume-what-you-read', 'read %s but consumed [:%s]' % (r.text, sl[1]), line))
+                        problems.append(Problem('consume-what-you-read', 'read %s but consumed [:%s]' % (r.text, sl[1]), line, r))
                         r.width = sl[1]
                 else:
                     r.width = sl[1]
@@ -174,23 +217,94 @@ def reader_sequence(state, buf='packet', cls=None):
             ft, args, kw, line = ev[1], ev[2], ev[3], ev[4]
             allargs = list(args) + list(kw.values())
             base = ft.split('.')[-1]
-            if any(a == buf for a in allargs):
+            if ft == buf + '.pop' and list(args) == ['0'] and not kw:
+                # buf.pop(0): one octet read and consumed at once (a skip unless the next event stores the value)
+                last_ctor = Read('skip', None, '1', '%s.pop(0)' % buf, line, via='pop')
+                reads.append(last_ctor)
+                if aliased:
+                    problems.append(('alias-then-consume', '%s.pop(0) removes an octet from the buffer that %s still aliases' % (buf, aliased[0]), line))
+            elif ft == buf + '.insert' and len(args) == 2 and args[0] == '0' and not kw:
+                # buf.insert(0, x): one octet is put in front of the buffer (for a sub-parser that expects it)
+                reads.append(Read('insert', None, '-1', '%s.insert(0, %s)' % (buf, args[1]), line))
+            elif any(a == buf for a in allargs):
                 if base in ('parse', '_experimental_parse') or ft.startswith('super:'):
                     reads.append(Read('delegate', None, None, '%s(%s)' % (ft, ', '.join(args)), line, via=ft))
                     if aliased:
                         problems.append(('alias-then-consume', '%s consumes from the buffer after %s was aliased to it' % (ft, aliased[0]), line))
                 elif base in ('insert',):
                     reads.append(Read('insert', None, '-1', ft, line))
+                elif ft in DELEGATES and list(args) == [buf] and not kw:
+                    # Klass(buf): a constructor that consumes its own octets from the buffer; the next event binds the result
+                    last_ctor = Read('delegate', None, None, '%s(%s)' % (ft, buf), line, via=ft)
+                    reads.append(last_ctor)
+                    if aliased:
+                        problems.append(('alias-then-consume', '%s(%s) consumes from the buffer after %s was aliased to it' % (ft, buf, aliased[0]), line))
             else:
                 for a in allargs:
                     sl = slice_of(a, buf) if (a.startswith('SLICE(%s;' % buf) and a.endswith(')')) else None
                     if sl is not None and (base == 'parse' or base in DELEGATES):
+                        same = [r for r, rs in pending if rs == sl]
+                        if same:
+                            # the slice was taken into a local first and is handed to the sub-parser now: one field, not two
+                            same[-1].kind, same[-1].via = 'fixed-delegate', ft
+                            continue
                         r = Read('fixed-delegate', None, None, '%s(%s)' % (ft, a), line, via=ft)
                         pending.append((r, sl))
                         reads.append(r)
     for r, rs in pending:
-        problems.append(('consume-what-you-read', 'read %s is never consumed' % r.text, r.line))
+        problems.append(Problem('consume-what-you-read', 'read %s is never consumed' % r.text, r.line, r))
     return reads, problems
+
+
+def _dedupe_pops(events, buf):
+    """The interpreter may evaluate an expression more than once (deciding a test, rendering it): a run of buf.pop(0) call events of
+    one source line stands for as many pops as the value stored next mentions (one when nothing is stored)."""
+    out, i, pop = [], 0, buf + '.pop'
+    while i < len(events):
+        e = events[i]
+        if e[0] == 'call' and e[1] == pop and list(e[2]) == ['0']:
+            j = i
+            while j < len(events) and events[j][0] == 'call' and events[j][1] == pop and events[j][4] == e[4]:
+                j += 1
+            nxt = events[j] if j < len(events) else None
+            keep = 1
+            if nxt is not None and nxt[0] in ('store', 'assign') and nxt[3] == e[4]:
+                keep = max(1, nxt[2].count('%s.pop(0)' % buf))
+            out.extend(events[i:i + min(keep, j - i)])
+            i = j
+            continue
+        out.append(e)
+        i += 1
+    return out
+
+
+def _tiling(pending, hi):
+    """How the pending reads [(Read, (lo, hi))] are covered by one `del buf[:hi]`: [(Read, lo, end of the octets consumed with it)]
+    in stream order, or None when they overlap / reach beyond hi.  With integer offsets, octets between two reads that are consumed
+    but not read count as skipped with the read before them (as in `x = buf[:1]; del buf[:4]`); symbolic offsets must chain exactly."""
+    ints = _int(hi) is not None and all(_int(p[1][0] or '0') is not None and _int(p[1][1]) is not None for p in pending)
+    if ints:
+        ps = sorted(pending, key=lambda p: _int(p[1][0] or '0'))
+        out, cur = [], 0
+        for i, (r, (lo, h)) in enumerate(ps):
+            lo_i, h_i = _int(lo or '0'), _int(h)
+            nxt = _int(ps[i + 1][1][0] or '0') if i + 1 < len(ps) else _int(hi)
+            if lo_i < cur or h_i <= lo_i or nxt < h_i:
+                return None
+            out.append((r, str(lo_i), str(nxt)))
+            cur = nxt
+        return out
+    left = list(pending)
+    cur, out = '0', []
+    while left:
+        nxt = [p for p in left if lin_norm(p[1][0] or '0') == cur]
+        if len(nxt) != 1 or nxt[0][1][1] == '':
+            return None
+        left.remove(nxt[0])
+        end = lin_norm(nxt[0][1][1])
+        out.append((nxt[0][0], cur, end))
+        cur = end
+    return out if cur == lin_norm(hi) else None
 
 
 def _int(t):
